@@ -187,7 +187,7 @@ def model_check(chk, spec, cfg=None, workers=8, timeout=1500, need_actions=None,
         raise ToolError("TLC failed on %s:\n%s" % (spec, vlib.tlc_fail_text(res)))
     for a in need_actions or []:
         hit = [v for k, v in res.coverage.items() if k.endswith("!" + a)]
-        if not hit or hit[0][0] == 0:
+        if not hit or hit[0][1] == 0:
             raise ToolError("vacuous model run: action %s never taken in %s" % (a, spec))
     chk.add("states", res.distinct)
     chk.add("transitions", res.generated)
